@@ -320,8 +320,10 @@ class GoT1:
             raise T1Error(f"{where}: {cname} is not `uint32 = <literal>`")
         size = int(cval[0][1], 0)
         ms = self._method(f, msg, "Size", "", "uint32")
-        if _txt(ms.body).rstrip(" ;") != f"return {cval[0][1]}":
-            raise T1Error(f"{where}: Size() does not return the value of {cname}: {_txt(ms.body)}")
+        mb = [x for x in ms.body if x != ("op", ";")]
+        if len(mb) != 2 or mb[0] != ("kw", "return") or mb[1][0] != "int":
+            raise T1Error(f"{where}: Size() is not `return <literal>`: {_txt(ms.body)}")
+        size_method = int(mb[1][1], 0)
         # ---- Encode / Decode: fixed text
         enc = _txt(self._method(f, msg, "Encode", "", "[]byte").body)
         if enc != "ctx := bp . NewEncodeContext ( int ( m . Size ( ) ) ) ; m . BpProcessor ( ) . Process ( ctx , nil , m ) ; return ctx . Buffer ( ) ;":
@@ -511,4 +513,4 @@ class GoT1:
         cls = ("{| gc_struct := " + clist(struct) + f"; gc_size := {size}; gc_get := " + clist(gets)
                + "; gc_set := " + clist(sets) + "; gc_int := " + clist(ints) + "; gc_acc := " + clist(accs) + " |}")
         term = f"(GPMsg {cbool(ext)} {cz(int(nb))} {clist(f'({n}, {p})' for n, p, _, _ in fps)} {cls})"
-        return term, {"name": msg, "file": f.name, "size": size, "fields": info_fields}
+        return term, {"name": msg, "file": f.name, "size": size, "size_method": size_method, "fields": info_fields}
